@@ -7,7 +7,14 @@
   yields exactly ONE entry with package, name, kind "Class", the superclass as written, the class
   annotations, and exactly one function entry per declared constructor / method, in declaration order,
   with its name, return type, constructor flag and position.  (Parameters are NOT carried by this pass:
-  known finding c01-ident-params.)
+  known finding c01-ident-params.)  Its last conjunct is the front-end clause of C18 ("equal the values
+  derivable from the source"): each function entry carries exactly the annotations and modifiers declared
+  on THAT member — nothing is inherited from the member before it — and its "returns null" flag is set
+  iff one of the `return` statements of its body mentions the null literal, whichever of them it is
+  (`expectedFacts`, `returnsNull`; the flag is only ever set, `inner_run_facts`).
+  `ident_iface_exact`: the same for EVERY conventional interface unit: one entry of kind "Interface", one function entry
+  per declared method with its name, return type, position, exactly its own annotations and modifiers (`static`,
+  `default`, also those written behind `default`) and its returns-null flag.
   `ident_file_independent`: `NewJavaIdentifierListener` assigns every package variable of the listener
   (regenerated: `Gen.Ident.unresetGlobals = []`), so a file's entries do not depend on the files before it.
 -/
@@ -77,7 +84,7 @@ theorem inner_step (st : ISt) (e : IEv) (hi : inner e = true) (hc : st.hasEnterC
   | exitCtor => simp [inner] at hi
   | enterMethod _ _ _ _ _ => simp [inner] at hi
   | exitMethod => simp [inner] at hi
-  | interfaceMethod _ _ _ _ => simp [inner] at hi
+  | interfaceMethod _ _ _ _ _ => simp [inner] at hi
   | exitInterfaceMethod => simp [inner] at hi
   | exitType => simp [inner] at hi
 
@@ -93,7 +100,7 @@ theorem inner_run (evs : List IEv) : ∀ (st : ISt), (∀ e ∈ evs, inner e = t
 
 /-- a declared member as the identifier pass sees it -/
 inductive IMember where
-  | method (pre : List IEv) (name ret : String) (firstAnno : Option Anno) (mods : List String) (pos : IP) (body : List IEv)
+  | method (pre : List IEv) (name ret : String) (annos : List Anno) (mods : List String) (pos : IP) (body : List IEv)
   | ctor (pre : List IEv) (name : String) (pos : IP) (body : List IEv)
   | field (pre : List IEv)
 
@@ -157,6 +164,119 @@ theorem member_step (m : IMember) (hok : m.ok) (st : ISt) (hc : st.hasEnterClass
       congr 2
       exact s2.csig
 
+/-! ### the facts the evaluation (C18) reads of a function entry: annotations, modifiers, "returns null" -/
+
+/-- what `coca evaluate` reads of a function entry -/
+def facts (f : Fn) : List Anno × List String × Bool := (f.annos, f.modifiers, f.isReturnNull)
+
+/-- some `return` statement among these events mentions the null literal -/
+def returnsNull : List IEv → Bool
+  | [] => false
+  | .returnExpr b :: r => b || returnsNull r
+  | _ :: r => returnsNull r
+
+/-- inner events leave the annotations and modifiers of the entry under construction alone, and only ever SET its
+    "returns null" flag (a later `return x;` does not clear it) -/
+theorem inner_run_facts (evs : List IEv) : ∀ (st : ISt), (∀ e ∈ evs, inner e = true) →
+    let st' := evs.foldl onEv st
+    st'.cur.annos = st.cur.annos ∧ st'.cur.modifiers = st.cur.modifiers ∧
+    st'.cur.isReturnNull = (st.cur.isReturnNull || returnsNull evs) := by
+  induction evs with
+  | nil => intro st _; simp [returnsNull]
+  | cons e evs ih =>
+    intro st h
+    have he := h e (by simp)
+    obtain ⟨i1, i2, i3⟩ := ih (onEv st e) (fun x hx => h x (by simp [hx]))
+    simp only [List.foldl_cons]
+    cases e with
+    | anno a =>
+      have hcur : (onEv st (.anno a)).cur = st.cur := by
+        simp only [onEv]; split <;> split <;> rfl
+      rw [hcur] at i1 i2 i3
+      exact ⟨i1, i2, by rw [i3]; simp [returnsNull]⟩
+    | returnExpr b =>
+      refine ⟨i1, i2, ?_⟩
+      rw [i3]; simp [onEv, returnsNull, Bool.or_assoc]
+    | pkg _ => simp [inner] at he
+    | imp _ => simp [inner] at he
+    | enterClass _ _ _ => simp [inner] at he
+    | enterInterface _ => simp [inner] at he
+    | enterCtor _ _ => simp [inner] at he
+    | exitCtor => simp [inner] at he
+    | enterMethod _ _ _ _ _ => simp [inner] at he
+    | exitMethod => simp [inner] at he
+    | interfaceMethod _ _ _ _ _ => simp [inner] at he
+    | exitInterfaceMethod => simp [inner] at he
+    | exitType => simp [inner] at he
+
+/-- the expected (annotations, modifiers, returns-null) of the members that declare a function: exactly the declared
+    annotations and modifiers of THAT member (nothing inherited from the member before it), and "returns null" iff one of
+    the `return` statements of its body mentions the null literal, whichever it is -/
+def expectedFacts : List IMember → List (List Anno × List String × Bool)
+  | [] => []
+  | .method _ _ _ annos mods _ body :: r => (annos, mods, returnsNull body) :: expectedFacts r
+  | .ctor _ _ _ body :: r => ([], [], returnsNull body) :: expectedFacts r
+  | .field _ :: r => expectedFacts r
+
+theorem member_step_facts (m : IMember) (hok : m.ok) (st : ISt) (hc : st.hasEnterClass = true) (ha : st.cur.annos = []) :
+    let st' := m.events.foldl onEv st
+    st'.cur.annos = [] ∧ st'.node.fns.map facts = st.node.fns.map facts ++ expectedFacts [m] := by
+  cases m with
+  | field pre =>
+    have s := inner_run pre st hok hc
+    obtain ⟨f1, _, _⟩ := inner_run_facts pre st hok
+    simp only [IMember.events, expectedFacts, List.append_nil]
+    exact ⟨by rw [f1]; exact ha, by rw [s.node]⟩
+  | method pre name ret annos mods pos body =>
+    obtain ⟨h1, h2⟩ := hok
+    simp only [IMember.events, List.foldl_append, List.foldl_cons, List.foldl_nil]
+    have s1 := inner_run pre st h1 hc
+    obtain ⟨f1, _, _⟩ := inner_run_facts pre st h1
+    generalize pre.foldl onEv st = a at s1 f1
+    have s2 := inner_run body (onEv a (.enterMethod name ret annos mods pos)) h2 rfl
+    obtain ⟨g1, g2, g3⟩ := inner_run_facts body (onEv a (.enterMethod name ret annos mods pos)) h2
+    generalize body.foldl onEv (onEv a (.enterMethod name ret annos mods pos)) = b at s2 g1 g2 g3
+    have hb : b.node = st.node := by rw [s2.node]; exact s1.node
+    refine ⟨rfl, ?_⟩
+    simp only [onEv, List.map_append, List.map_cons, List.map_nil, hb, expectedFacts]
+    congr 2
+    simp only [onEv] at g1 g2 g3
+    simp only [facts, g1, g2, g3, f1, ha, List.nil_append, Bool.false_or]
+  | ctor pre name pos body =>
+    obtain ⟨h1, h2⟩ := hok
+    simp only [IMember.events, List.foldl_append, List.foldl_cons, List.foldl_nil]
+    have s1 := inner_run pre st h1 hc
+    obtain ⟨f1, _, _⟩ := inner_run_facts pre st h1
+    generalize pre.foldl onEv st = a at s1 f1
+    have hca : a.hasEnterClass = true := by rw [s1.hec]; exact hc
+    have s2 := inner_run body (onEv a (.enterCtor name pos)) h2 hca
+    obtain ⟨g1, g2, g3⟩ := inner_run_facts body (onEv a (.enterCtor name pos)) h2
+    generalize body.foldl onEv (onEv a (.enterCtor name pos)) = b at s2 g1 g2 g3
+    have hb : b.node = st.node := by rw [s2.node]; exact s1.node
+    simp only [onEv] at g1 g2 g3
+    refine ⟨?_, ?_⟩
+    · simp only [onEv]; rw [g1, f1]; exact ha
+    · simp only [onEv, List.map_append, List.map_cons, List.map_nil, hb, expectedFacts]
+      congr 2
+      simp only [facts, g1, g2, g3, f1, ha, Bool.false_or]
+
+theorem expectedFacts_cons (m : IMember) (ms : List IMember) : expectedFacts (m :: ms) = expectedFacts [m] ++ expectedFacts ms := by
+  cases m <;> simp [expectedFacts]
+
+theorem members_run_facts : ∀ (ms : List IMember) (st : ISt), (∀ m ∈ ms, m.ok) → st.hasEnterClass = true → st.cur.annos = [] →
+    let st' := (ms.flatMap IMember.events).foldl onEv st
+    st'.node.fns.map facts = st.node.fns.map facts ++ expectedFacts ms := by
+  intro ms
+  induction ms with
+  | nil => intro st _ _ _; simp [expectedFacts]
+  | cons m ms ih =>
+    intro st hok hc ha
+    simp only [List.flatMap_cons, List.foldl_append]
+    obtain ⟨a1, _, _, _⟩ := member_step m (hok m (by simp)) st hc
+    obtain ⟨c1, c2⟩ := member_step_facts m (hok m (by simp)) st hc ha
+    have b := ih _ (fun x hx => hok x (by simp [hx])) a1 c1
+    rw [b, c2, expectedFacts_cons m ms, List.append_assoc]
+
 theorem expected_cons (m : IMember) (ms : List IMember) : expected (m :: ms) = expected [m] ++ expected ms := by
   cases m <;> simp [expected]
 
@@ -211,7 +331,7 @@ theorem annos_outside (as : List Anno) : ∀ (st : ISt), st.hasEnterClass = fals
 /-- **C01, identifier pass, class units** -/
 theorem ident_class_exact (u : IUnit) (hname : u.name ≠ "") (hok : ∀ m ∈ u.members, m.ok) (st0 : ISt) :
     ∃ d, (runFile st0 u.events).nodes = [d] ∧ d.pkg = u.pkg ∧ d.node = u.name ∧ d.type = "Class" ∧ d.annos = u.annos ∧
-      d.ext = u.ext.getD "" ∧ d.fns.map sig = expected u.members := by
+      d.ext = u.ext.getD "" ∧ d.fns.map sig = expected u.members ∧ d.fns.map facts = expectedFacts u.members := by
   unfold runFile IUnit.events
   simp only [List.foldl_append, List.foldl_cons, List.foldl_nil]
   have hN : newListener st0 = {} := by simp [newListener, Gen.Ident.unresetGlobals]
@@ -251,8 +371,10 @@ theorem ident_class_exact (u : IUnit) (hname : u.name ≠ "") (hok : ∀ m ∈ u
     cases u.ext <;> rfl
   have s1 : S.hasEnterClass = true := by rw [← hS]; rfl
   have s2 : S.nodes = [] := by rw [← hS]; exact a3
+  have s3 : S.cur.annos = [] := by rw [← hS]; rfl
   obtain ⟨m1, m2, m3, m4⟩ := members_run u.members S hok s1
-  generalize (u.members.flatMap IMember.events).foldl onEv S = F at m1 m2 m3 m4
+  have m5 := members_run_facts u.members S hok s1 s3
+  generalize (u.members.flatMap IMember.events).foldl onEv S = F at m1 m2 m3 m4 m5
   have hSf : S.node.fns = [] := by
     have := congrArg DS.fns hSn; simpa [a4] using this
   have hFn : F.node.node = u.name := by
@@ -261,13 +383,14 @@ theorem ident_class_exact (u : IUnit) (hname : u.name ≠ "") (hok : ∀ m ∈ u
     simp only at h1 h2
     rw [h1, h2]
   have hne : (F.node.node != "") = true := by rw [hFn]; simpa using hname
-  refine ⟨F.node, ?_, ?_, hFn, ?_, ?_, ?_, ?_⟩
+  refine ⟨F.node, ?_, ?_, hFn, ?_, ?_, ?_, ?_, ?_⟩
   · simp only [onEv, pushNode, hne, if_true, m2, s2, List.nil_append]
   · have h1 := congrArg DS.pkg m3; have h2 := congrArg DS.pkg hSn; simp only at h1 h2; rw [h1, h2, a1]
   · have h1 := congrArg DS.type m3; have h2 := congrArg DS.type hSn; simp only at h1 h2; rw [h1, h2]
   · have h1 := congrArg DS.annos m3; have h2 := congrArg DS.annos hSn; simp only at h1 h2; rw [h1, h2, a2]
   · have h1 := congrArg DS.ext m3; have h2 := congrArg DS.ext hSn; simp only at h1 h2; rw [h1, h2, a5]
   · rw [m4, hSf]; rfl
+  · rw [m5, hSf]; rfl
 
 /-! ### non-vacuity: a concrete unit with an annotated method, a constructor, a field and a `return null` -/
 
@@ -276,7 +399,7 @@ def demoUnit : IUnit :=
     members := [
       .field [.anno { name := "Inject" }],
       .ctor [] "A" ⟨4, 11, 4, 16⟩ [],
-      .method [.anno { name := "Override" }] "run" "T" (some { name := "Override" }) ["public"] ⟨6, 11, 8, 4⟩ [.returnExpr "null"]] }
+      .method [.anno { name := "Override" }] "run" "T" [{ name := "Override" }] ["public"] ⟨6, 11, 8, 4⟩ [.returnExpr true]] }
 
 example : demoUnit.name ≠ "" ∧ ∀ m ∈ demoUnit.members, m.ok := by
   refine ⟨by decide, ?_⟩
@@ -286,5 +409,157 @@ example : demoUnit.name ≠ "" ∧ ∀ m ∈ demoUnit.members, m.ok := by
 
 -- the model run on it (a test, not a proof): one entry with the constructor and the method
 #guard ((runFile {} demoUnit.events).nodes.map fun d => (d.node, d.fns.map (·.name))) == [("A", ["A", "run"])]
+
+/-- C18 front-end, non-vacuity: a `@Nullable` method followed by an un-annotated one; `return null` before `return x` -/
+def demoNullable : IUnit :=
+  { pkg := "p", imports := [], annos := [], name := "Repo", ext := none, impls := [],
+    members := [
+      .method [.anno { name := "Nullable" }] "find" "T" [{ name := "Nullable" }] ["public", "static"] ⟨4, 4, 6, 4⟩ [.returnExpr false],
+      .method [] "load" "T" [] ["static", "final"] ⟨8, 4, 13, 4⟩ [.returnExpr true, .returnExpr false],
+      .ctor [] "Repo" ⟨15, 4, 16, 4⟩ [],
+      .method [] "name" "String" [] [] ⟨18, 4, 20, 4⟩ [.returnExpr false]] }
+
+example : demoNullable.name ≠ "" ∧ ∀ m ∈ demoNullable.members, m.ok := by
+  refine ⟨by decide, ?_⟩
+  intro m hm
+  simp only [demoNullable, List.mem_cons, List.not_mem_nil, or_false] at hm
+  rcases hm with rfl | rfl | rfl | rfl <;> simp [IMember.ok, inner]
+
+-- (tests) what the theorem promises for it, and the model run on it
+#guard (expectedFacts demoNullable.members).map (fun x => (x.1.map (·.name), x.2.1, x.2.2)) ==
+  [(["Nullable"], ["public", "static"], false), ([], ["static", "final"], true), ([], [], false), ([], [], false)]
+#guard ((runFile {} demoNullable.events).nodes.map fun d => d.fns.map fun f => (f.annos.map (·.name), f.modifiers, f.isReturnNull)) ==
+  [[(["Nullable"], ["public", "static"], false), ([], ["static", "final"], true), ([], [], false), ([], [], false)]]
+
+/-! ### interface units -/
+
+/-- a declared interface method as the identifier pass sees it: the annotations before it, the declaration (with all its
+    annotation modifiers and its other modifiers, those behind `default` included), the events of its body if it has one -/
+structure IfMethod where
+  pre : List IEv
+  name : String
+  ret : String
+  annos : List Anno
+  mods : List String
+  pos : IP
+  body : List IEv
+
+def IfMethod.events (m : IfMethod) : List IEv :=
+  m.pre ++ [.interfaceMethod m.name m.ret m.annos m.mods m.pos] ++ m.body ++ [.exitInterfaceMethod]
+
+def IfMethod.ok (m : IfMethod) : Prop := (∀ e ∈ m.pre, inner e = true) ∧ ∀ e ∈ m.body, inner e = true
+
+theorem ifmethod_step (m : IfMethod) (hok : m.ok) (st : ISt) (hc : st.hasEnterClass = true) (ha : st.cur.annos = []) :
+    let st' := m.events.foldl onEv st
+    st'.hasEnterClass = true ∧ st'.nodes = st.nodes ∧ st'.cur.annos = [] ∧
+    { st'.node with fns := [] } = { st.node with fns := [] } ∧
+    st'.node.fns.map sig = st.node.fns.map sig ++ [(m.name, m.ret, false, posOf m.pos)] ∧
+    st'.node.fns.map facts = st.node.fns.map facts ++ [(m.annos, m.mods, returnsNull m.body)] := by
+  obtain ⟨h1, h2⟩ := hok
+  simp only [IfMethod.events, List.foldl_append, List.foldl_cons, List.foldl_nil]
+  have s1 := inner_run m.pre st h1 hc
+  obtain ⟨f1, _, _⟩ := inner_run_facts m.pre st h1
+  generalize m.pre.foldl onEv st = a at s1 f1
+  have hca : a.hasEnterClass = true := by rw [s1.hec]; exact hc
+  have s2 := inner_run m.body (onEv a (.interfaceMethod m.name m.ret m.annos m.mods m.pos)) h2 hca
+  obtain ⟨g1, g2, g3⟩ := inner_run_facts m.body (onEv a (.interfaceMethod m.name m.ret m.annos m.mods m.pos)) h2
+  generalize m.body.foldl onEv (onEv a (.interfaceMethod m.name m.ret m.annos m.mods m.pos)) = b at s2 g1 g2 g3
+  have hb : b.node = st.node := by rw [s2.node]; exact s1.node
+  simp only [onEv] at g1 g2 g3
+  refine ⟨?_, ?_, rfl, ?_, ?_, ?_⟩
+  · simp only [onEv]; rw [s2.hec]; exact hca
+  · simp only [onEv]; rw [s2.nodes]; exact s1.nodes
+  · simp only [onEv, hb]
+  · simp only [onEv, List.map_append, List.map_cons, List.map_nil, hb]
+    congr 2
+    exact s2.csig
+  · simp only [onEv, List.map_append, List.map_cons, List.map_nil, hb]
+    congr 2
+    simp only [facts, g1, g2, g3, f1, ha, List.nil_append, Bool.false_or]
+
+theorem ifmethods_run : ∀ (ms : List IfMethod) (st : ISt), (∀ m ∈ ms, m.ok) → st.hasEnterClass = true → st.cur.annos = [] →
+    let st' := (ms.flatMap IfMethod.events).foldl onEv st
+    st'.nodes = st.nodes ∧ { st'.node with fns := [] } = { st.node with fns := [] } ∧
+    st'.node.fns.map sig = st.node.fns.map sig ++ ms.map (fun m => (m.name, m.ret, false, posOf m.pos)) ∧
+    st'.node.fns.map facts = st.node.fns.map facts ++ ms.map (fun m => (m.annos, m.mods, returnsNull m.body)) := by
+  intro ms
+  induction ms with
+  | nil => intro st _ _ _; simp
+  | cons m ms ih =>
+    intro st hok hc ha
+    simp only [List.flatMap_cons, List.foldl_append]
+    obtain ⟨a1, a2, a3, a4, a5, a6⟩ := ifmethod_step m (hok m (by simp)) st hc ha
+    obtain ⟨b2, b4, b5, b6⟩ := ih _ (fun x hx => hok x (by simp [hx])) a1 a3
+    exact ⟨b2.trans a2, b4.trans a4, by rw [b5, a5]; simp, by rw [b6, a6]; simp⟩
+
+structure IfUnit where
+  pkg : String
+  imports : List String
+  annos : List Anno
+  name : String
+  methods : List IfMethod
+
+def IfUnit.events (u : IfUnit) : List IEv :=
+  [.pkg u.pkg] ++ u.imports.map .imp ++ u.annos.map .anno ++ [.enterInterface u.name] ++
+    u.methods.flatMap IfMethod.events ++ [.exitType]
+
+/-- **C01 / C18, identifier pass, interface units**: from ANY listener state, exactly one entry of kind "Interface" with the
+    package, name and annotations of the unit, and exactly one function entry per declared method, in declaration order, with
+    its name, return type and position, exactly its own annotations and modifiers (`static`, `default`, … - what the evaluation
+    counts), and "returns null" iff a `return` statement of its body mentions the null literal -/
+theorem ident_iface_exact (u : IfUnit) (hname : u.name ≠ "") (hok : ∀ m ∈ u.methods, m.ok) (st0 : ISt) :
+    ∃ d, (runFile st0 u.events).nodes = [d] ∧ d.pkg = u.pkg ∧ d.node = u.name ∧ d.type = "Interface" ∧ d.annos = u.annos ∧
+      d.fns.map sig = u.methods.map (fun m => (m.name, m.ret, false, posOf m.pos)) ∧
+      d.fns.map facts = u.methods.map (fun m => (m.annos, m.mods, returnsNull m.body)) := by
+  unfold runFile IfUnit.events
+  simp only [List.foldl_append, List.foldl_cons, List.foldl_nil]
+  have hN : newListener st0 = {} := by simp [newListener, Gen.Ident.unresetGlobals]
+  rw [hN, imports_run]
+  obtain ⟨ov, hov⟩ := annos_outside u.annos { onEv {} (.pkg u.pkg) with imports := (onEv {} (.pkg u.pkg)).imports ++ u.imports } rfl
+  rw [hov]
+  generalize hA : ({ ({ onEv {} (.pkg u.pkg) with imports := (onEv {} (.pkg u.pkg)).imports ++ u.imports } : ISt) with
+      isOverride := ov, node := _ } : ISt) = A
+  have a1 : A.node.pkg = u.pkg := by rw [← hA]; rfl
+  have a2 : A.node.annos = u.annos := by rw [← hA]; simp [onEv]
+  have a3 : A.nodes = [] := by rw [← hA]; rfl
+  have a4 : A.node.fns = [] := by rw [← hA]; rfl
+  have a6 : A.cur.annos = [] := by rw [← hA]; rfl
+  generalize hS : onEv A (.enterInterface u.name) = S
+  have hSn : S.node = { A.node with type := "Interface", node := u.name } := by rw [← hS]; rfl
+  have s1 : S.hasEnterClass = true := by rw [← hS]; rfl
+  have s2 : S.nodes = [] := by rw [← hS]; exact a3
+  have s3 : S.cur.annos = [] := by rw [← hS]; exact a6
+  obtain ⟨m2, m3, m4, m5⟩ := ifmethods_run u.methods S hok s1 s3
+  generalize (u.methods.flatMap IfMethod.events).foldl onEv S = F at m2 m3 m4 m5
+  have hSf : S.node.fns = [] := by rw [hSn]; exact a4
+  have hFn : F.node.node = u.name := by
+    have h1 := congrArg DS.node m3
+    simp only at h1
+    rw [h1, hSn]
+  have hne : (F.node.node != "") = true := by rw [hFn]; simpa using hname
+  refine ⟨F.node, ?_, ?_, hFn, ?_, ?_, ?_, ?_⟩
+  · simp only [onEv, pushNode, hne, if_true, m2, s2, List.nil_append]
+  · have h1 := congrArg DS.pkg m3; simp only at h1; rw [h1, hSn]; exact a1
+  · have h1 := congrArg DS.type m3; simp only at h1; rw [h1, hSn]
+  · have h1 := congrArg DS.annos m3; simp only at h1; rw [h1, hSn]; exact a2
+  · rw [m4, hSf]; rfl
+  · rw [m5, hSf]; rfl
+
+/-- non-vacuity: an interface with an abstract `@Nullable` method, a static method and a default method returning null -/
+def demoIface : IfUnit :=
+  { pkg := "p", imports := [], annos := [], name := "Finder",
+    methods := [
+      ⟨[.anno { name := "Nullable" }], "find", "T", [{ name := "Nullable" }], [], ⟨4, 4, 4, 20⟩, []⟩,
+      ⟨[], "of", "Finder", [], ["public", "static"], ⟨6, 4, 8, 4⟩, [.returnExpr false]⟩,
+      ⟨[.anno { name := "Deprecated" }], "first", "T", [{ name := "Deprecated" }], ["default"], ⟨10, 4, 15, 4⟩, [.returnExpr true, .returnExpr false]⟩] }
+
+example : demoIface.name ≠ "" ∧ ∀ m ∈ demoIface.methods, m.ok := by
+  refine ⟨by decide, ?_⟩
+  intro m hm
+  simp only [demoIface, List.mem_cons, List.not_mem_nil, or_false] at hm
+  rcases hm with rfl | rfl | rfl <;> simp [IfMethod.ok, inner]
+
+#guard ((runFile {} demoIface.events).nodes.map fun d => (d.type, d.fns.map fun f => (f.name, f.annos.map (·.name), f.modifiers, f.isReturnNull))) ==
+  [("Interface", [("find", ["Nullable"], [], false), ("of", [], ["public", "static"], false), ("first", ["Deprecated"], ["default"], true)])]
 
 end CocaVerif.Props.C01Ident
